@@ -94,3 +94,54 @@ func vfH_c07_prefix() {
 	}
 	vfCover("done")
 }
+
+type pMapS struct {
+	M map[string]string
+	N map[int32]pInner
+	R []pInner
+}
+
+// H03-entry: length prefixes at the one-byte / two-byte varint boundary: a map entry (string value, message value) and
+// a repeated message element whose payload is vfLen bytes long, vfLen sweeping across 128 minus the few bytes of tags
+// and nested prefixes. Marshal never fails, Size == len(Marshal), round trip.
+func vfH_c03_entry() {
+	v := pMapS{}
+	s := vfString(vfLen)
+	switch vfMode {
+	case 0:
+		v.M = map[string]string{vfString(1): s}
+	case 1:
+		v.N = map[int32]pInner{int32(int8(vfByte())): {X: 1, Y: s}}
+	default:
+		v.R = []pInner{{X: int32(int8(vfByte())), Y: s}}
+	}
+	b, err := Marshal(v)
+	vfAssert(err == nil, "marshal-never-fails")
+	if err != nil {
+		return
+	}
+	vfAssert(len(b) == Size(v), "Size==len(Marshal)")
+	var g pMapS
+	err = Unmarshal(b, &g)
+	vfAssert(err == nil, "unmarshal-of-marshal-ok")
+	if err == nil {
+		switch vfMode {
+		case 0:
+			vfAssert(len(g.M) == 1, "entry.M-len")
+			for k, x := range v.M {
+				vfAssert(g.M[k] == x, "entry.M-val")
+			}
+		case 1:
+			vfAssert(len(g.N) == 1, "entry.N-len")
+			for k, x := range v.N {
+				checkInner(x, g.N[k], "entry.N-val")
+			}
+		default:
+			vfAssert(len(g.R) == 1, "entry.R-len")
+			if len(g.R) == 1 {
+				checkInner(v.R[0], g.R[0], "entry.R-val")
+			}
+		}
+	}
+	vfCover("done")
+}
